@@ -30,13 +30,42 @@ def _sigkeys(sig):
     return sorted({"~".join(sorted(pr)) if len(pr) == 2 else pr[0] + "~" + pr[0] for pr in sig})
 
 
+def _norm_attr(a):
+    """attribute names as the compiler sees them in a class body called T: NFKC-normalised,
+    and `__x` (not ending in `__`) mangled to `_T__x`; compare modulo both"""
+    a = nfkc(a)
+    if a.startswith("_T__") and not a.endswith("__"):
+        a = a[2:]
+    return a
+
+
 def _norm_props(props):
-    return sorted((nfkc(a), s, bool(r)) for a, s, r in props)
+    return sorted((_norm_attr(a), s, bool(r)) for a, s, r in props)
+
+
+def _gen_reason(parsed_attr, gen_attr):
+    if gen_attr == parsed_attr:
+        return "same-name"
+    if gen_attr == "_T" + parsed_attr:
+        return "private-name-mangling"
+    if gen_attr == nfkc(parsed_attr):
+        return "nfkc-normalisation"
+    return "other"
 
 
 def run(pid, tier, replay_file=None):
     t0 = time.time()
     rep = Reporter(pid, tier)
+
+    def viol(key, msg, payload, n=1):
+        """count an occurrence; message and payload are built for the first one only"""
+        g = rep.groups.get(key)
+        if g is None:
+            rep.violation(key, msg(), payload())
+            g = rep.groups[key]
+            n -= 1
+        g["count"] += n
+
     by, meta = nf.stage1("quick" if replay_file and tier not in nf.TIERS else tier)
     table = nf.set_table(by["table"][0])
     if replay_file:
